@@ -44,7 +44,7 @@ def plan(tier):
 
 def required_regimes(tier):
     return {'l1:odd_rows', 'l1:odd_cols', 'l2+:pad_both', 'l2+:pad_rows_only', 'l2+:pad_cols_only', 'l2+:pad_none',
-            'closure:self_loop', 'size:h!=w', 'image_smaller_than_filter', 'variant:N=1', 'variant:C=2'}
+            'closure:self_loop', 'size:h!=w', 'image_smaller_than_filter', 'variant:N=1', 'variant:C=2', 'variant:no_grad', 'variant:inference_mode'}
 
 
 def run(item):
@@ -100,6 +100,16 @@ def run(item):
                 l2, h2 = dtc.impl_forward(b, q, np.concatenate([X, X[::-1]], axis=1), J)
                 res['impl_calls'] += 2
                 res.regime('variant:N=1', 'variant:C=2')
+                import torch as _t
+                for ctxname, ctxm in (('no_grad', _t.no_grad), ('inference_mode', _t.inference_mode)):
+                    with ctxm():
+                        lg, hg = dtc.impl_forward(b, q, X, J)
+                    res['impl_calls'] += 1
+                    res.regime('variant:' + ctxname)
+                    for a_, b_ in zip([lg] + list(hg), [yl] + list(yh)):
+                        if a_.shape != b_.shape or not _t.equal(a_, b_):
+                            res.violation('analysis_vs_reference', dict(cfg, variant=ctxname), {'kind': 'value_or_shape', 'what': 'result under %s differs from the result with autograd enabled' % ctxname}, tags)
+                            break
                 one = [l1.numpy()] + [t.numpy() for t in h1]
                 two = [l2.numpy()] + [t.numpy() for t in h2]
                 full = [yl.numpy()] + [t.numpy() for t in yh]
